@@ -13,6 +13,28 @@ from tr_lemon import TranslateError, strip_comments
 TOK = re.compile(r'\s*("(?:[^"\\]|\\.)*"|->|\|\||&&|==|!=|\|=|[A-Za-z_][A-Za-z_0-9]*|-?\d+|[{}();,=!&<>\[\]*+\-.])')
 
 
+def strip_c_comments(src):
+    """remove // and /* */ comments, leaving string and character literals alone"""
+    out, i, n = [], 0, len(src)
+    while i < n:
+        c = src[i]
+        if c in "\"'":
+            j = i + 1
+            while j < n and src[j] != c:
+                j += 2 if src[j] == "\\" else 1
+            out.append(src[i:j + 1]); i = j + 1
+        elif src.startswith("//", i):
+            j = src.find("\n", i)
+            i = n if j < 0 else j
+        elif src.startswith("/*", i):
+            j = src.find("*/", i + 2)
+            i = n if j < 0 else j + 2
+            out.append(" ")
+        else:
+            out.append(c); i += 1
+    return "".join(out)
+
+
 def tokenize(text):
     toks, pos = [], 0
     text = text.strip()
@@ -263,8 +285,7 @@ def switch_readers():
     out = []
     for f in sorted(os.listdir(common.SRC)):
         if not f.endswith(".c") or f == "main.c": continue
-        src = strip_comments(common.read(os.path.join(common.SRC, f)))
-        src = re.sub(r"//[^\n]*", "", src)
+        src = strip_c_comments(common.read(os.path.join(common.SRC, f)))
         for m in re.finditer(r"\n[A-Za-z_][A-Za-z_0-9 \*]*\b([A-Za-z_0-9]+)\s*\([^;{}]*\)\s*\{", src):
             name = m.group(1)
             try:
@@ -276,7 +297,7 @@ def switch_readers():
 
 
 def main():
-    src = re.sub(r"//[^\n]*", "", strip_comments(common.read(os.path.join(common.SRC, "writer.c"))))
+    src = strip_c_comments(common.read(os.path.join(common.SRC, "writer.c")))
     guard, pre, chain, default, post = analyse_metadata(src)
     cases = analyse_export(src)
     readers = switch_readers()
